@@ -167,21 +167,27 @@ class ImplStack:
 
     # ---- naming of handles
     def name(self, h):
+        """canonical name of a handle; None = asyncio plumbing that is executed eagerly (white-listed: the
+        wait_cancelled helper task and gather's bookkeeping); anything unknown gets a '?' name and shows up as a divergence"""
         cb = h._callback
         s = getattr(cb, "__self__", None)
         if isinstance(s, asyncio.Task):
             q = getattr(s.get_coro(), "__qualname__", "").rsplit(".", 1)[-1]
-            return "task:" + q if q in MODELLED_TASKS else None
-        q = getattr(cb, "__qualname__", None) or getattr(cb, "__name__", "")
+            if q in MODELLED_TASKS:
+                return "task:" + q
+            return None if q == "wait_cancelled" else "?task:" + q
+        q = getattr(cb, "__qualname__", None) or getattr(cb, "__name__", "") or repr(cb)
         last = q.rsplit(".", 1)[-1]
         if last in MODELLED_CBS:
             return last
         if last == "connection_lost":
             part = {SD.ServiceSubscriber: "subscriber", SD.ServiceDiscover: "discovery", SD.ServiceAnnouncer: "announcer"}.get(type(s))
-            return "connection_lost:" + part if part else None
+            return "connection_lost:" + part if part else "?connection_lost"
         if last == "_set_result_unless_cancelled":
             return "sleep"
-        return None
+        if q == "gather.<locals>._done_callback":
+            return None
+        return "?" + last
 
     def drain_plumbing(self):
         """run asyncio plumbing (wait_cancelled / gather bookkeeping) eagerly: it touches no library state"""
